@@ -14,7 +14,45 @@ def decode(p):
         return p
 
 
+def frames_equal(go, model):
+    """F section: the call frames of the program in creation order. Go (hook func.frame, hooks/C05.patch) reports scope
+    name > name of the scope it is linked to [names held when the body starts, sorted]; the model reports the same
+    with the names of the FINAL frame in insertion order: the names at the start must be exactly its first ones
+    (this / super / parameters come first: frame_contents). `F nohook`: the tree has no hook, nothing to compare."""
+    if go == "F nohook":
+        return True
+    gf = [x for x in go[2:].split("|") if x]
+    mf = [x for x in model[2:].split("|") if x]
+    if len(gf) != len(mf):
+        return False
+    for g, m in zip(gf, mf):
+        gh, gn = g.split("[", 1)
+        mh, mn = m.split("[", 1)
+        gnames = [x for x in gn.rstrip("]").split(",") if x]
+        mnames = [x for x in mn.rstrip("]").split(",") if x]
+        if gh != mh or sorted(mnames[:len(gnames)]) != sorted(gnames):
+            return False
+    return True
+
+
+def equal(go, model, attrs):
+    """section-wise comparison: the model prints U for a probe section it cannot give (value it does not know, or the
+    probe left the model: then also every later section); the F section is compared by frames_equal; everything else
+    must be equal, section by section"""
+    gs, ms = go.split(";"), model.split(";")
+    if len(gs) != len(ms):
+        return False
+    for x, y in zip(gs, ms):
+        if y == "U" or x == y:
+            continue
+        if x.startswith("F ") and y.startswith("F ") and frames_equal(x, y):
+            continue
+        return False
+    return True
+
+
 SPEC = dict(
+    equal=equal,
     lean_modules=["Ecal.Props.C05"],
     shards=12,
     rule=("cases = programs over the names {a,b,c,f,g,o} + probe expressions evaluated afterwards in the same global scope: "
@@ -27,7 +65,9 @@ SPEC = dict(
           "key (19 bracket keys incl. 1 vs \"1\", negative, out of range, keys containing '.', variables + 30 nested dot/bracket paths) x "
           "read | write-then-read; pairs (thorough: triples) of len/add/del/concat operations with aliases; builtin argument checks; "
           "object templates (single / multiple inheritance, init, super); exhaustive outer context {top level, function, method, method inside blocks, init with super, closure of a method} x 11 inner declarations (helper templates / function literals declared, instantiated and called INSIDE the running outer call, parameters named like outer variables, this/super as parameters, recursion) with marks of the OUTER this/super/params/locals afterwards; random programs mixing all of it (2500 quick, 120000 thorough). "
-          "Compared: outcome (value or error TYPE) of the program and of every probe, canonical dump of the global scope, ordered "
+          "Compared section by section (SPEC.equal): outcome (value or error TYPE) of the program, canonical dump of the global scope, ordered "
+          "marker trace, call frames of the program (F; with hooks/C05.patch), then per probe its outcome and trace (U = the model cannot "
+          "give that section), final dump. Previously: outcome of the program and of every probe, dump, "
           "marker trace; error objects (except ... as e) in a canonical form on both sides (type, data, detail of raise; message / position / "
           "source / trace as placeholders). Non-trivial = the trace has at least one entry."),
     exhaustive="scope shape x assignment form x definition place; parameters x argument counts x context; container x key x access form",
@@ -53,10 +93,11 @@ META = dict(
               "correspondence of the whole model with Runtime.Eval on exhaustive and random programs with probes and scope dumps",
     level_text=("Proof (about functions of Model/Eval.lean that runFunction / runBuiltin call; unfolding equations runFunction_uses_buildFrame, "
                 "runBuiltin_uses, addSuperClasses_order, superLoop_order): lookup_nearest, assign_nearest_or_local (+ one scope touched, heap "
-                "untouched), let_local, inner_not_visible_outside, block_scope_under_current (newChild: parent = current scope, reused by name, not "
+                "untouched), let_local, let_statement_local, inner_not_visible_outside, block_scope_under_current (newChild: parent = current scope, reused by name, not "
                 "on the parent's chain), frame_invisible_from_existing, scopes_wf_preserved; call frames on buildFrame: call_fresh_locals, closure_sees_definition_scope, "
                 "call_does_not_write_enclosing_frames (every outcome; hypothesis = the defaults of THIS parameter list preserve the frame "
-                "invariant; call_frames_noDefaults needs none; both instantiated on the real eval in examples), "
+                "invariant; call_frames_noDefaults, frame_contents, param_value (exact contents of a finished frame) need none; instantiated on "
+                "the real eval in examples), "
                 "args_missing_default_extra_ignored; read_after_write_path on setValue / getValue themselves for any nesting (containerWalk "
                 "and containerGet reach the same cell, fieldKey = the key setValue writes, negative list indices) and "
                 "prims_by_value_containers_by_ref (a write through one name is read through any alias reaching the same cell); "
